@@ -50,6 +50,9 @@ type Scenario struct {
 	CloseBudgetMs int `json:"close_context_ms,omitempty"`
 	// Closers: Close is called by this many goroutines at once (0/1: one caller)
 	Closers int `json:"concurrent_close_callers,omitempty"`
+	// CallFlood: before the chunks the broker sends this many e2e request calls and as many reply calls that the
+	// application never asks for (more than the connection's inboxes hold): the stream's consumer keeps up all the same
+	CallFlood int `json:"unread_e2e_calls_and_replies,omitempty"`
 }
 
 func Gen(r *rand.Rand, quickChunks int) Scenario {
@@ -82,6 +85,9 @@ func Gen(r *rand.Rand, quickChunks int) Scenario {
 	}
 	s.Seed = r.Int63()
 	s.SharedSession = r.Intn(3) == 0
+	if r.Intn(5) == 0 {
+		s.CallFlood = 1100 + r.Intn(600)
+	}
 	if r.Intn(6) == 0 {
 		// the periodic flush never comes: whatever is acknowledged is acknowledged by Close
 		s.AckFlushUs = 3600 * 1000000
@@ -239,6 +245,10 @@ func Run(s Scenario) (*Outcome, string) {
 		defer sendWG.Done()
 		metaLeft := s.Metadata
 		sentChunks := 0
+		for k := 0; k < s.CallFlood; k++ {
+			lc.Send(&message.DownstreamCall{CallID: fmt.Sprintf("flood-%d", k), SourceNodeID: "peer", Name: "n", Type: "t", Payload: []byte("c")})
+			lc.Send(&message.DownstreamCall{CallID: fmt.Sprintf("flood-r-%d", k), RequestCallID: fmt.Sprintf("nobody-%d", k), SourceNodeID: "peer", Name: "n", Type: "t", Payload: []byte("c")})
+		}
 		for i := 0; i < total; i++ {
 			// keep fewer than 256 unconsumed items in flight (documented 1024-item buffering)
 			for int64(sentChunks)-consumed.Load() >= 250 {
@@ -437,7 +447,12 @@ func Run(s Scenario) (*Outcome, string) {
 			time.Sleep(200 * time.Microsecond)
 		}
 	}
-	if s.Closers > 1 {
+	if stalled {
+		// the verdict is in (an item never came out); do not spend the case's time budget on a Close that may hang as well
+		cctx, ccancel := context.WithTimeout(ctx, 2*time.Second)
+		out.CloseErr = down.Close(cctx)
+		ccancel()
+	} else if s.Closers > 1 {
 		// several parts of the application close the stream at the same time; the call that does the closing counts
 		errs := make([]error, s.Closers)
 		var cwg sync.WaitGroup
